@@ -171,6 +171,13 @@ def main() -> int:
             shutil.rmtree(tmp, ignore_errors=True)
     with open(os.path.join(ROOT, "selftest", "mutants_last.json"), "w") as fh:
         json.dump(rows, fh, indent=1)
+    if not only:
+        with open(os.path.join(ROOT, "selftest", "MUTANTS.md"), "w") as fh:
+            fh.write("# Sensitivity self-test (selftest/mutants.py)\n\nEach mutant is applied to a scratch copy of /repo (removed afterwards); "
+                     "`suite` is tawazi's own test-suite on the mutant; the checks are the quick tier with VERIF_REPO pointing at the copy.\n\n"
+                     "| mutant | what | tawazi suite | checks (exit 1 = caught) |\n|---|---|---|---|\n")
+            for name, res, suite, _, note in rows:
+                fh.write(f"| {name} | {note} | {suite or 'not run'} | {res} |\n")
     return 0
 
 
